@@ -46,7 +46,10 @@ def walk(events, ctx=EMPTY, structural=False):
                 yield ev, ctx
             yield from walk(ev.body, ctx._replace(tries=ctx.tries + ((ev, "body"),)), structural)
             for h in ev.handlers:
-                yield from walk(h.body, ctx._replace(tries=ctx.tries + ((ev, h),)), structural)
+                hctx = ctx._replace(tries=ctx.tries + ((ev, h),))
+                if getattr(h, "probe", None) is not None:
+                    hctx = hctx._replace(guards=hctx.guards + (("cmp", "not in", h.probe[1], h.probe[0]),))
+                yield from walk(h.body, hctx, structural)
         else:
             yield ev, ctx
 
@@ -194,10 +197,23 @@ def _alts(ev, unroll, exc, limit):
     if isinstance(ev, ir.Try):
         body = paths(ev.body, unroll, exc, limit, False)
         alts = list(body)
+        for h in ev.handlers:
+            if getattr(h, "probe", None) is not None:
+                # the body only looks a key up: the handler runs exactly when the key is missing
+                for hp in paths(h.body, unroll, exc, limit, False):
+                    alts.append(Path().extend((("handler", h.exc), ("cmp", "not in", h.probe[1], h.probe[0])) + hp.guards,
+                                              hp.events, hp.exit, (0, 0) + tuple(hp.gpos)))
         if exc:
             seen = set()
+            unprotected = set()
+            if getattr(ev, "else_from", None) is not None:
+                unprotected = {id(e) for e, _ in walk(ev.body[ev.else_from:])}
             for bp in body:
                 for i, e in enumerate(bp.events):
+                    if id(e) in unprotected:
+                        break               # the else clause runs only after the body completed; it is not protected
+                    if isinstance(e, ir.Jump):
+                        continue            # a jump does not raise
                     key = tuple(id(x) for x in bp.events[:i + 1])
                     if key in seen:
                         continue
